@@ -35,7 +35,8 @@ Reading.
 * The tiling hypothesis is needed only AT the states where a commit path runs (`TilesAt`);
   `tilesAt_of_C03` derives it from C03's theorems with exactly C03's hypotheses (`CompValid`, `NoEmptyKey`,
   `WellFormed`, `HasWord` for the simple engine).  That editor histories reach only `CompValid`
-  compositions is C04's invariant, not proved here.
+  compositions with a word for every buffered syllable is C01's invariant `EditorInv`; the section
+  "linked" at the end connects the two: `history_ledger_linked` has no tiling premise.
 -/
 namespace Chewing.C02
 open Chewing Chewing.C06
